@@ -181,22 +181,7 @@ def classify(req, impl):
     return "first=%s" % (o["log"][0][0] if o["log"] else ("ok" if o["rc"] == 0 else "rc%d" % o["rc"]))
 
 
-EXTRA_IN_KEY = "extra whitespace character inside a quoted table key: CIF_INVALID_INDEX without a report"
-
-# the one open finding of this family concerns a character whose IDENTITY the model does not keep (ASSUMPTIONS: extra
-# whitespace / end-of-line characters are modelled by the class-preserving substitution c -> TAB / LF), so the model cannot
-# follow the code on these inputs
-COMPARE_ON_KNOWN = False
-
-
 def finding_class(req, impl, model, why):
-    """D8: a character given in extra_ws_chars / extra_eol_chars (U+000B, U+000C ...) is whitespace to the scanner, so inside a
-    quoted table key it is accepted silently; cif_value_set_item_by_key then refuses the key (cif_has_disallowed_chars) and
-    the parse fails with CIF_INVALID_INDEX although no error was reported"""
-    d = pd.split_request(req)
-    o = pd.split_impl(impl)
-    if o and o["rc"] == 73 and not o["log"] and any(u in d["units"] for u in list(d["ews"]) + list(d["eeol"])):
-        return EXTRA_IN_KEY
     return None
 
 
